@@ -4,7 +4,7 @@ C14 — local indexes are exactly undone when a block is removed.
 Model of the local-index writers of /repo as KV-delta generators over a key/value store:
   executor/plugin_txindex.go, plugin_addrindex.go, plugin_addrfeeindex.go, plugin_fee.go,
   plugin_kvmvcc.go (+ common/db/mvcc.go AddMVCC/DelMVCC), system/dapp/coins/executor/exec_local.go,
-  exec_del_local.go (through DriverBase.callLocal for the removal side), the plugin / per-transaction
+  exec_del_local.go (both sides only for receipts ExecOk; removal through DriverBase.callLocal), the plugin / per-transaction
   order of executor.go procExecAddBlock / procExecDelBlock, and blockchain/blockstore.go AddTxs / DelTxs
   (nil value => delete, else set, in list order).
 Core Lean only.
@@ -209,8 +209,19 @@ def feeSteps (adding : Bool) (pf : Int × Int) (b : Block) : List Step :=
 
 /-! ### coins ExecLocal / ExecDelLocal -/
 
-/-- `Coins.ExecLocal` is an override that does NOT look at the receipt type. -/
+/-- `Coins.ExecLocal` (after fix 303f1d2 in /repo): like `DriverBase.callLocal`, nothing unless the receipt is
+ExecOk. -/
 def coinsAddStep (t : Tx) : List Step :=
+  if t.rty ≠ execOk then [] else
+  match t.coins with
+  | .none => []
+  | .transfer a => [Step.bump (Key.recv t.to) a]
+  | .toExec a => [Step.bump (Key.recv t.to) a]
+  | .genesis a => [Step.bump (Key.recv t.to) a]
+  | .withdraw a => [Step.bump (Key.recv t.sender) a]
+
+/-- the override as it was before the fix: it did NOT look at the receipt type (kept for the regression witness). -/
+def coinsAddStepPreFix (t : Tx) : List Step :=
   match t.coins with
   | .none => []
   | .transfer a => [Step.bump (Key.recv t.to) a]
